@@ -72,7 +72,13 @@ class EngineWorld:
         return SBytes(list(items.items) if isinstance(items, SBytes) else list(items), True)
 
     def bytes_of(self, items):
-        return SBytes(list(items.items) if isinstance(items, SBytes) else list(items), False)
+        its = list(items.items) if isinstance(items, SBytes) else list(items)
+        return SBytes([V.int_to_byte(x) if isinstance(x, (SInt, SBool)) else x for x in its], False)
+
+    def memoryview(self, b):
+        mv = SBytes(b.items, False)
+        mv.kind = "memoryview"
+        return mv
 
     def list(self, items):
         return I.SList(items)
@@ -131,6 +137,8 @@ class EngineWorld:
 
     def new_queue(self, items=()):
         from .libmodels import QueueModel
+        if isinstance(items, I.SList):
+            return SObj(QueueModel, {"items": items})
         return SObj(QueueModel, {"items": I.SList(list(items))})
 
     def plist(self, name, maxn=3, elem=None):
@@ -301,6 +309,9 @@ class NativeWorld:
 
     def bytes_of(self, items):
         return bytes(items)
+
+    def memoryview(self, b):
+        return memoryview(b)
 
     def list(self, items):
         return list(items)
